@@ -744,9 +744,18 @@ fn plan_words(p: &Plan) -> Vec<Vec<Op>> {
         vec![a1, a2, a1, a2, b1, a1, a2, a1, a2, a1, b1, a2, Op::Merge, a1, Op::Reopen, Op::Merge, da, Op::Reopen],
         vec![bb, a1, Op::Merge, bb, da, Op::Merge, Op::Reopen, Op::Reopen, a2, Op::Merge],
     ];
+    // file ids with different numbers of digits (9 / 10, 99 / 100) among the files one merge removes:
+    // the value in the lower, the tombstone in the higher
+    let mut histories = histories;
+    for pre in [8usize, 9, 98, 99] {
+        let mut h = vec![Op::Reopen; pre];
+        h.extend([a1, da, Op::Merge, Op::Reopen]);
+        histories.push(h);
+    }
     let have: std::collections::HashSet<Vec<Op>> = words.iter().cloned().collect();
     for h in histories {
-        for k in (p.depth + 1)..=h.len() {
+        let lead = h.iter().take_while(|o| **o == Op::Reopen).count();
+        for k in (p.depth + 1).max(lead + 1)..=h.len() {
             if !have.contains(&h[..k]) {
                 words.push(h[..k].to_vec());
             }
@@ -1446,6 +1455,8 @@ fn classify_fault(class: &str, word: &[Op], fault_op: Option<usize>, call: &Call
         Some(Op::Set(..)) => "set",
         Some(Op::Del(_)) => "del",
         Some(Op::Fill(..)) | Some(Op::Drain(..)) => "bulk",
+        Some(Op::SetLen(..)) => "big-set",
+        Some(Op::Sync) => "sync",
         None => "?",
     };
     format!("{}[{}-failed-in-{}]", class, what, opn)
